@@ -6,8 +6,8 @@
 // midpoint lies strictly within one unit of an odd number two or more bits below the rounding position
 // (lib/fp_lemmas.rs lemma_fp_sticky_core, over integers, all six modes).  Zero gives Exact(0).
 // ASSUMED: the far-range shortcut (|log2 value| beyond 4096 according to the f32 estimate `log2_bounds`) is seen through
-// the enclosure the estimate is supposed to give (lib/fp_spec.rs fp_est_lo / fp_est_hi, __f32_guard0/1 below: lowering rule
-// D10); its result is the stand-in +-2^+-4096 (fp_far), stated as such in the contract.  dashu-int operations: lib/fp_stubs.rs.
+// the enclosure the estimate is supposed to give (lib/fp_spec.rs fp_est_lo / fp_est_hi, __f32_guard0 below: lowering rule
+// D10, ax_fp_gt_zero); its result is the stand-in +-2^+-4096 (fp_far), stated as such in the contract.  dashu-int operations: lib/fp_stubs.rs.
 #![allow(unused_imports, unused_variables, dead_code, non_snake_case, unused_mut, unused_parens, unused_braces)]
 use vstd::prelude::*;
 verus! {
@@ -27,15 +27,12 @@ pub trait Round: Copy {
 //@@ INCLUDE lib/fp_stubs.rs
 //@@ INCLUDE lib/fp_lemmas.rs
 use core::marker::PhantomData;
-// the two float tests of convert_to_binary_once (rule D10).  TRUSTED statements about the f32 expressions
-// `log2_lb > FAR as f32 || log2_ub < -FAR as f32` and `log2_lb > 0.` (FAR = 4096 is exactly representable in f32)
+// the first float test of convert_to_binary_once (rule D10).  TRUSTED statement about the f32 expression
+// `log2_lb > FAR as f32 || log2_ub < -FAR as f32` (FAR = 4096 is exactly representable in f32); the second test
+// `log2_lb > 0.` is a native comparison read through lib/fp_spec.rs ax_fp_gt_zero
 #[verifier::external_body]
 pub fn __f32_guard0(log2_lb: f32, FAR: isize, log2_ub: f32) -> (r: bool)
     ensures r == (fp_f32_gt(log2_lb, FAR as int) || fp_f32_lt(log2_ub, -(FAR as int)))
-{ unimplemented!() }
-#[verifier::external_body]
-pub fn __f32_guard1(log2_lb: f32) -> (r: bool)
-    ensures r == fp_f32_gt(log2_lb, 0)
 { unimplemented!() }
 impl<const B: Word> Repr<B> {
 //@@ FN float/repr/is_infinite.rs
